@@ -597,6 +597,59 @@ class LoopCanon(ast.NodeTransformer):
         return node
 
 
+class WhileCounter(ast.NodeTransformer):
+    """i = c0 ; while i < N: BODY ; i += 1     ->   for i in range(c0, N): BODY
+    (i assigned by the statement right before the loop, incremented by exactly one as the last statement of the body, not otherwise assigned, no
+    break / continue / else, N not re-bound in the body, i not read after the loop)"""
+    def _block(self, stmts, fn_loads_after):
+        out = []
+        i = 0
+        while i < len(stmts):
+            s, nxt = stmts[i], (stmts[i + 1] if i + 1 < len(stmts) else None)
+            if isinstance(s, ast.Assign) and len(s.targets) == 1 and isinstance(s.targets[0], ast.Name) and isinstance(s.value, ast.Constant) and isinstance(s.value.value, int) \
+                    and isinstance(nxt, ast.While) and not nxt.orelse and isinstance(nxt.test, ast.Compare) and len(nxt.test.ops) == 1 and isinstance(nxt.test.ops[0], ast.Lt) \
+                    and isinstance(nxt.test.left, ast.Name) and nxt.test.left.id == s.targets[0].id and nxt.body:
+                v = s.targets[0].id
+                bound = nxt.test.comparators[0]
+                last = nxt.body[-1]
+                ok = isinstance(last, ast.AugAssign) and isinstance(last.target, ast.Name) and last.target.id == v and isinstance(last.op, ast.Add) \
+                    and isinstance(last.value, ast.Constant) and last.value.value == 1
+                body = nxt.body[:-1]
+                bnames = {n.id for n in ast.walk(bound) if isinstance(n, ast.Name)}
+                for st in body:
+                    for n in ast.walk(st):
+                        if isinstance(n, (ast.Break, ast.Continue, ast.Yield, ast.YieldFrom)) and isinstance(n, (ast.Break, ast.Continue)):
+                            ok = False
+                        if isinstance(n, ast.Name) and isinstance(n.ctx, (ast.Store, ast.Del)) and (n.id == v or n.id in bnames):
+                            ok = False
+                later = stmts[i + 2:]
+                if any(isinstance(n, ast.Name) and n.id == v and isinstance(n.ctx, ast.Load) for st in later for n in ast.walk(st)) or v in fn_loads_after:
+                    ok = False
+                if ok and body:
+                    args = [bound] if s.value.value == 0 else [s.value, bound]
+                    new = ast.For(target=ast.Name(id=v, ctx=ast.Store()), iter=ast.Call(func=ast.Name(id='range', ctx=ast.Load()), args=args, keywords=[]), body=body, orelse=[], type_comment=None)
+                    ast.copy_location(new, nxt)
+                    ast.fix_missing_locations(new)
+                    out.append(new)
+                    i += 2
+                    continue
+            out.append(s)
+            i += 1
+        return out
+
+    def visit_FunctionDef(self, node):
+        self.generic_visit(node)
+        return node
+
+    def generic_visit(self, node):
+        super().generic_visit(node)
+        for fld in ('body', 'orelse', 'finalbody'):
+            val = getattr(node, fld, None)
+            if isinstance(val, list) and val and isinstance(val[0], ast.stmt):
+                setattr(node, fld, self._block(val, set()))
+        return node
+
+
 class UnrollLiteral(ast.NodeTransformer):
     """for v in (a, b): BODY   ->   BODY[v := a] ; BODY[v := b]      (a literal tuple / list of at most 4 names or constants; v not re-bound in BODY;
     no break / continue / else): two parallel statements and their loop form become one spelling"""
@@ -947,6 +1000,7 @@ def normalize_module(tree, modname):
     if inl.helpers or inl.methods:
         _drop_dead_helpers(tree, inl)
     IfAssign().visit(tree)         # after inlining: a helper `return a if c else b` is inlined as an expression first
+    WhileCounter().visit(tree)
     UnrollLiteral().visit(tree)
     UnrollComp().visit(tree)
     LoopCanon().visit(tree)
